@@ -38,6 +38,8 @@ package tq
 //@   requires @inv q.wait != nil && !q.wait.abort && q.rc != nil
 //@   loop 4 iter @C06 (len(next) - iter(len(next))) + (iter(q.wait.counter) - q.wait.counter) + (len(toTransfer) - iter(len(toTransfer))) == 1
 //@   at loop 4 entry assert @C06 len(bRes.Objects) == len(batch)
+//@   loop 2 invariant @C03 hasNonRetriableObjects || q.wait.counter == old(q.wait.counter)
+//@   ensures @C03 result1 == nil && batchfailed(0) && !old(batchfailed(0)) ==> q.wait.counter == old(q.wait.counter)
 //@   loop 3 invariant @C03 forall_int(i, bRes.Objects[i], 0 <= i && i <= rangeindex ==> !(bRes.Objects[i].Missing && !isempty(bRes.Objects[i].Actions)))
 //@   at loop 4 entry assert @C03 q.direction == Upload ==> forall_int(i, bRes.Objects[i], 0 <= i && i < len(bRes.Objects) ==> !(bRes.Objects[i].Missing && !isempty(bRes.Objects[i].Actions)))
 //@   at call (*tq.TransferQueue).enqueueAndCollectRetriesFor$1:1 assert err_retriable(err) && q.rc.count[t.Oid] < q.rc.MaxRetries
@@ -72,14 +74,21 @@ package tq
 //@   ensures result1 == (result0 != time_zero && time_after(time_add(time_now(), d), result0))
 
 //@ func (ActionSet).Get
-//@   props C15 C02
+//@   props C15 C02 C06
+//@   requires @inv forall_v(k, has(as, k), has(as, k) ==> as[k] != nil)
 //@   modifies fresh
+//@   ensures has(as, rel) && (ite(as[rel].ExpiresIn == 0, as[rel].ExpiresAt, time_add(as[rel].createdAt, as[rel].ExpiresIn * 1000000000)) != time_zero && time_after(time_add(time_now(), 5000000000), ite(as[rel].ExpiresIn == 0, as[rel].ExpiresAt, time_add(as[rel].createdAt, as[rel].ExpiresIn * 1000000000)))) ==> result0 == nil && result1 != nil && err_retriable(result1)
+//@   ensures !has(as, rel) ==> result0 == nil && result1 == nil
+//@   ensures has(as, rel) && !(ite(as[rel].ExpiresIn == 0, as[rel].ExpiresAt, time_add(as[rel].createdAt, as[rel].ExpiresIn * 1000000000)) != time_zero && time_after(time_add(time_now(), 5000000000), ite(as[rel].ExpiresIn == 0, as[rel].ExpiresAt, time_add(as[rel].createdAt, as[rel].ExpiresIn * 1000000000)))) ==> result0 == as[rel] && result1 == nil
 //@   ensures result0 != nil ==> result1 == nil && has(as, rel) && result0 == as[rel]
 //@   ensures result0 != nil ==> !(ite(result0.ExpiresIn == 0, result0.ExpiresAt, time_add(result0.createdAt, result0.ExpiresIn * 1000000000)) != time_zero && time_after(time_add(time_now(), 5000000000), ite(result0.ExpiresIn == 0, result0.ExpiresAt, time_add(result0.createdAt, result0.ExpiresIn * 1000000000))))
 
 //@ func (*Transfer).Rel
-//@   props C15 C02
+//@   props C15 C02 C06
+//@   requires @inv t != nil && forall_v(k, has(t.Actions, k), has(t.Actions, k) ==> t.Actions[k] != nil) && forall_v(k, has(t.Links, k), has(t.Links, k) ==> t.Links[k] != nil)
 //@   modifies fresh
+//@   ensures has(t.Actions, name) && (ite(t.Actions[name].ExpiresIn == 0, t.Actions[name].ExpiresAt, time_add(t.Actions[name].createdAt, t.Actions[name].ExpiresIn * 1000000000)) != time_zero && time_after(time_add(time_now(), 5000000000), ite(t.Actions[name].ExpiresIn == 0, t.Actions[name].ExpiresAt, time_add(t.Actions[name].createdAt, t.Actions[name].ExpiresIn * 1000000000)))) ==> result0 == nil && result1 != nil && err_retriable(result1)
+//@   ensures has(t.Actions, name) && !(ite(t.Actions[name].ExpiresIn == 0, t.Actions[name].ExpiresAt, time_add(t.Actions[name].createdAt, t.Actions[name].ExpiresIn * 1000000000)) != time_zero && time_after(time_add(time_now(), 5000000000), ite(t.Actions[name].ExpiresIn == 0, t.Actions[name].ExpiresAt, time_add(t.Actions[name].createdAt, t.Actions[name].ExpiresIn * 1000000000)))) ==> result0 == t.Actions[name] && result1 == nil
 //@   ensures result0 != nil ==> result1 == nil
 //@   ensures result0 != nil ==> !(ite(result0.ExpiresIn == 0, result0.ExpiresAt, time_add(result0.createdAt, result0.ExpiresIn * 1000000000)) != time_zero && time_after(time_add(time_now(), 5000000000), ite(result0.ExpiresIn == 0, result0.ExpiresAt, time_add(result0.createdAt, result0.ExpiresIn * 1000000000))))
 
@@ -205,8 +214,9 @@ package tq
 // transfer table).
 //@ func Batch
 //@   assumed
-//@   props C06 C15
+//@   props C06 C15 C03
 //@   modifies fresh
+//@   monitor batchfailed[0] := result1 != nil
 //@   ensures result1 == nil ==> result0 != nil
 //@ func (*TransferQueue).useAdapter
 //@   assumed
